@@ -76,6 +76,8 @@ def shards(tier: str, seed: int):
             out.append(["algsub", b.bid])
         if "/nonce/" in b.bid and "/env" in b.bid and "/long" not in b.bid:
             out.append(["splice", b.bid])
+        if "/long" not in b.bid:
+            out.append(["selfcopy", b.bid])
         if "/nonce/" in b.bid:
             out.append(["forge", b.bid])
             out.append(["forge-hist", b.bid])
@@ -251,6 +253,12 @@ def algsub_mutations(blob: bytes):
                         yield ["algsub", name, fname, where - n, v], cms.encode(b._replace(content_alg=oid, content_params=params, enc_content=bytes(ct)))
 
 
+def cms_decode(blob: bytes):
+    from ref import cms
+
+    return cms.decode(blob)
+
+
 def gkdi_B() -> int:
     from ref import gkdi
 
@@ -375,6 +383,36 @@ def run_shard(shard, tier, seed, acc) -> None:
         acc.nt_counted(n)
         acc.sample({"reader": "not authorised for the SID; the DC returns a public-key envelope", "forgeries keyed from": sorted(cands)})
         return
+    if shard[0] == "selfcopy":
+        # parts of the blob copied and put in again: its own ciphertext + tag, every DER node (content and whole TLV), its tail, the whole
+        # blob - appended behind the blob, behind the envelope, and in front. Sealed parts must not combine into another plaintext
+        from ref import der
+
+        base = bm.base_by_id(seed, shard[1])
+        st, v = unprotect(base, base.blob)
+        if st != "ok" or bytes(v) != base.plaintext:
+            from mc.runner import HarnessError
+
+            raise HarnessError(f"base blob {base.bid} does not decrypt: {st} {v!r}")
+        b = cms_decode(base.blob)
+        root = der.parse_one(base.blob)
+        pieces = {"enc_content": bytes(b.enc_content), "blob": base.blob, "tail16": base.blob[-16:], "tail32": base.blob[-32:], "ct-without-tag": bytes(b.enc_content)[:-16], "tag": bytes(b.enc_content)[-16:]}
+        for path, nd in der.walk(root):
+            if len(path) <= 5:
+                pieces["node%s" % list(path)] = base.blob[nd.start : nd.end]
+                pieces["content%s" % list(path)] = bytes(nd.content)
+        n = 0
+        for name, x in pieces.items():
+            if not x:
+                continue
+            for where, data in (("append", base.blob + x), ("append-twice", base.blob + x + x), ("after-envelope", base.blob[: root.end] + x + base.blob[root.end :]), ("prepend", x + base.blob)):
+                oc = judge(acc, base, ["selfcopy", name, where], data, [], "async" if n % 2 else "sync")
+                acc.outcome("selfcopy:" + oc.split(":")[0])
+                n += 1
+        acc.ev(n)
+        acc.nt_counted(n)
+        acc.sample({"blob": base.bid, "pieces copied": sorted(pieces)[:8], "placements": ["append", "append-twice", "after-envelope", "prepend"]})
+        return
     if shard[0] == "splice":
         # blobs produced by the library itself in ONE process (same SID, different plaintexts): parts of one transplanted into another
         import dpapi_ng
@@ -394,6 +432,11 @@ def run_shard(shard, tier, seed, acc) -> None:
 
                     blobs.append(bytes(vloop.run(dpapi_ng.async_ncrypt_protect_secret(pt, bm.SID, root_key_identifier=base0.rk.rkid, cache=cache))))
         n = 0
+        # every transplant is judged against a cache that has ALREADY opened all the genuine blobs (whatever a cache remembers per key
+        # identifier or per descriptor must not let a transplant through), the retry inside judge() runs on a second copy of it
+        for b_ in blobs:
+            dpapi_ng.ncrypt_unprotect_secret(b_, cache=cache)
+        _hist_cache["cache"] = cache
         for ia, ib in itertools.permutations(range(len(pts)), 2):
             A, Bb = cms.decode(blobs[ia]), cms.decode(blobs[ib])
             base = bm.Base(base0.bid, base0.rk, blobs[ia], pts[ia])
@@ -407,6 +450,7 @@ def run_shard(shard, tier, seed, acc) -> None:
         acc.ev(n)
         acc.nt_counted(n)
         acc.sample({"blobs protected by the library in one process": len(pts), "transplants": ["content", "content+params", "params", "enc_cek", "content+params+enc_cek", "keyid"]})
+        _hist_cache["cache"] = None
         return
     if shard[0] == "algsub":
         base0 = bm.base_by_id(seed, shard[1])
@@ -549,6 +593,14 @@ def replay(case, seed, acc) -> None:
     _, bid, label = case[:3]
     api = case[3] if len(case) > 3 else "sync"
     acc.ev()
+    if label[0] == "selfcopy":
+        run_shard(["selfcopy", bid], "quick", seed, acc)
+        for kk in list(acc.violations):
+            acc.violations[kk] = [e for e in acc.violations[kk] if e["case"][2] == list(label)]
+            if not acc.violations[kk]:
+                del acc.violations[kk]
+        acc.violation_count = sum(len(v) for v in acc.violations.values())
+        return
     if label[0] in ("algconf", "unauth"):
         parts = bid.split("/")
         run_shard(["algconf", parts[0], parts[1]] if label[0] == "algconf" else ["unauth", parts[0], parts[2] == "env"], "quick", seed, acc)
